@@ -36,6 +36,8 @@ type c04Op struct {
 	Lic    int    `json:"lic,omitempty"`
 	Param  int    `json:"param,omitempty"`
 	Stream bool   `json:"stream,omitempty"`
+	DCase  int    `json:"dcase,omitempty"` // create: spelling of the digest in the request (0 as computed, 1 upper-case hex, 2 mixed)
+	At     int    `json:"at,omitempty"`    // pulldel: ordinal of the pull's registry request at which the delete is issued
 }
 
 type c04Case struct {
@@ -123,7 +125,7 @@ func c04Gen(t *rapid.T) c04Case {
 	for i := 0; i < n; i++ {
 		var o c04Op
 		o.Kind = rapid.SampledFrom([]string{"create", "create", "create", "create", "createfrom", "createfrom", "copy", "copy", "delete", "delete", "delete",
-			"pull", "pull", "restart", "blob", "list", "pardelete", "pardelete"}).Draw(t, "kind")
+			"pull", "pull", "restart", "blob", "list", "pardelete", "pardelete", "pulldel", "pulldel", "pulldel"}).Draw(t, "kind")
 		// names are drawn from a small sub-pool most of the time so that operations collide
 		if rapid.IntRange(0, 3).Draw(t, "wide") == 0 {
 			o.Name = rapid.IntRange(0, 10000).Draw(t, "name")
@@ -140,10 +142,16 @@ func c04Gen(t *rapid.T) c04Case {
 			o.Lic = rapid.SampledFrom([]int{0, 0, 3, 4}).Draw(t, "lic")
 			o.Param = rapid.IntRange(0, 2).Draw(t, "param")
 			o.Stream = rapid.Bool().Draw(t, "stream")
+			if o.Kind == "create" {
+				o.DCase = rapid.SampledFrom([]int{0, 0, 0, 0, 0, 0, 1, 2}).Draw(t, "dcase")
+			}
 		case "blob":
 			o.GGUF = rapid.IntRange(0, 2).Draw(t, "gguf")
 		case "pull":
 			o.Stream = rapid.Bool().Draw(t, "stream")
+		case "pulldel":
+			o.Stream = rapid.Bool().Draw(t, "stream")
+			o.At = rapid.IntRange(0, 8).Draw(t, "at")
 		}
 		c.Ops = append(c.Ops, o)
 	}
@@ -188,6 +196,18 @@ func (e *c04Env) doNoWait(method, path string, body any) (int, []byte) {
 	w := &c04Recorder{ResponseRecorder: httptest.NewRecorder()}
 	e.h.ServeHTTP(w, req)
 	return w.Code, w.Body.Bytes()
+}
+
+// c04Published returns what the registry serves for a model name (nil if nothing).
+func c04Published(reg *frRegistry, name string) *frModel {
+	mp := ParseModelPath(name)
+	key := mp.GetNamespaceRepository() + ":" + mp.Tag
+	reg.mu.Lock()
+	defer reg.mu.Unlock()
+	if m := reg.models[key]; m != nil {
+		return m
+	}
+	return reg.models[strings.ToLower(key)]
 }
 
 // c04Recorder adds the CloseNotifier that gin's Stream needs (a real connection has it).
@@ -328,15 +348,16 @@ func c04RunInner(c c04Case) (classes []string, nontrivial bool, err error) {
 	c04Init()
 	gin.SetMode(gin.TestMode)
 	gin.DefaultWriter, gin.DefaultErrorWriter = io.Discard, io.Discard
-	dir, derr := os.MkdirTemp("", "c04-")
+	scratch, derr := os.MkdirTemp("", "c04-")
 	if derr != nil {
 		return nil, false, nil
 	}
 	defer func() {
 		if os.Getenv("C04_KEEP") == "" {
-			os.RemoveAll(dir)
+			os.RemoveAll(scratch)
 		}
 	}()
+	dir := frModelsDir(scratch)
 	os.Setenv("OLLAMA_MODELS", dir)
 	os.Unsetenv("OLLAMA_NOPRUNE")
 	frHome()
@@ -401,7 +422,22 @@ func c04RunInner(c c04Case) (classes []string, nontrivial bool, err error) {
 					opErr = fmt.Errorf("blob upload answered %d %s", code, body)
 					break
 				}
-				req["files"] = map[string]string{"model.gguf": frDigest(g)}
+				d := frDigest(g)
+				switch o.DCase {
+				case 1: // clients may spell the hex digits in upper case; the store's file names are lower case
+					d = "sha256:" + strings.ToUpper(strings.TrimPrefix(d, "sha256:"))
+					e.cls["create_with_uppercase_digest"] = true
+				case 2:
+					h := []byte(strings.TrimPrefix(d, "sha256:"))
+					for i := range h {
+						if i%2 == 0 {
+							h[i] = byte(strings.ToUpper(string(h[i]))[0])
+						}
+					}
+					d = "sha256:" + string(h)
+					e.cls["create_with_uppercase_digest"] = true
+				}
+				req["files"] = map[string]string{"model.gguf": d}
 			} else {
 				req["from"] = name2
 				desc += " from " + name2
@@ -528,6 +564,49 @@ func c04RunInner(c c04Case) (classes []string, nontrivial bool, err error) {
 			}
 			wg.Wait()
 			synctest.Wait()
+		case "pulldel":
+			// while model `name` is being pulled another client deletes model `name2`, which shares no layer with what
+			// the registry publishes for `name` (deleting a model that shares a layer with an unfinished pull is a
+			// known hazard outside the statement): "removing one model never removes data of another" - the pull, if
+			// it reports success, must leave a complete model. The delete runs between two registry requests of the pull.
+			addressed[c04Key(name)], addressed[c04Key(name2)] = true, true
+			desc += " " + name + " || delete " + name2
+			victim, vListed := before[c04Key(name2)]
+			shared := c04Key(name) == c04Key(name2)
+			if pub := c04Published(e.reg, name); pub != nil && vListed {
+				for _, d := range victim.digests {
+					for _, l := range pub.Layers {
+						shared = shared || l.Digest == d
+					}
+					shared = shared || (pub.Config != nil && pub.Config.Digest == d)
+				}
+			}
+			n, fired := 0, false
+			var hmu sync.Mutex
+			if vListed && !shared {
+				e.reg.hook = func(ev string) {
+					if !strings.HasPrefix(ev, "request ") {
+						return
+					}
+					hmu.Lock()
+					n++
+					fire := !fired && n > o.At
+					fired = fired || fire
+					hmu.Unlock()
+					if fire {
+						e.doNoWait("DELETE", "/api/delete", map[string]any{"model": name2})
+					}
+				}
+			}
+			code, body := e.do("POST", "/api/pull", map[string]any{"model": name, "stream": o.Stream})
+			e.reg.hook = nil
+			synctest.Wait()
+			hmu.Lock()
+			didFire := fired
+			hmu.Unlock()
+			if _, hasErr := c04HasError(body); code == 200 && !hasErr && didFire {
+				e.cls["pull_ok_with_delete_of_unrelated_model_in_between"] = true
+			}
 		case "pull":
 			addressed[c04Key(name)] = true
 			desc += " " + name
